@@ -106,6 +106,10 @@ pub fn run_config(prop: &str, checks: u32, cfg: &Config, idx: u64) -> FamilyResu
         None if idx % 2 == 1 => RootHow::Parsed,
         None => RootHow::Constructed,
     };
+    // starting move numbers near representation boundaries (the games are long enough to cross them)
+    if cfg.setup.is_none() {
+        mn = [2usize, 995, 65_530, 2][(idx % 4) as usize];
+    }
     let family = format!("E2 {}{}", cfg.name, match &how { RootHow::Parsed => " [root parsed with from_str]", RootHow::Setup(_) => " [root produced by 32 placements]", _ => "" });
     let root = RootInfo { how, explorer: "E2", family: family.clone(), idx, board, gold: cfg.gold_to_move, move_number: mn, config: config_json(cfg) };
     let mut ctx = Ctx::new(checks, prop, &root);
@@ -747,8 +751,10 @@ pub fn run_lasso_padded(prop: &str, checks: u32, ka: usize, kb: usize, rot: usiz
             }
         }
     }
+    // starting move number: mostly 2, some lassos start just below 1000, 65536 and 2^32 and cross them
+    let lasso_mn = [2usize, 2, 980, 2, 65_500, 2, (1usize << 32) - 40, 2][(rot + prefix) % 8];
     let family = format!("E8 lassos: Gold E round a {}-square ring (a2..), Silver e round a {}-square ring (a8..), one step + pass per turn; cycle of {} turn-start positions walked twice from EVERY one of its positions as root (small rings: after 0..=12 irreversible prefix turns by two cats), third entry attempted{}", la, lb, 2 * lcm, if pad { format!("; PADDED with {} further pieces on the free files of the home ranks", padded) } else { String::new() });
-    let root = RootInfo { how: if idx % 2 == 1 { RootHow::Parsed } else { RootHow::Constructed }, explorer: "E8", family: family.clone(), idx, board, gold: rot % 2 == 0, move_number: 2, config: serde_json::json!({"ring_gold": la, "ring_silver": lb, "rotation": rot, "prefix_turns": prefix}) };
+    let root = RootInfo { how: if idx % 2 == 1 { RootHow::Parsed } else { RootHow::Constructed }, explorer: "E8", family: family.clone(), idx, board, gold: rot % 2 == 0, move_number: lasso_mn, config: serde_json::json!({"ring_gold": la, "ring_silver": lb, "rotation": rot, "prefix_turns": prefix, "starting_move_number": lasso_mn}) };
     let mut ctx = Ctx::new(checks, prop, &root);
     let mut complete = true;
     let mut note = String::new();
@@ -919,6 +925,10 @@ fn shuffle_candidates(b: &rm::Board, gold: bool, rot: usize) -> Vec<(usize, usiz
     v
 }
 
+pub fn shuffle_candidates_pub(b: &rm::Board, gold: bool) -> usize {
+    shuffle_candidates(b, gold, 0).len()
+}
+
 /// E9: `k` Gray-code pieces per side => a cycle of 2 * 2^k turn-start positions; walked twice, third entry attempted:
 /// the history then holds 4 * 2^k + 1 entries (k = 3: 33) on a dense board.
 pub fn run_seed_shuffles(prop: &str, checks: u32, thorough: bool) -> Vec<FamilyResult> {
@@ -948,7 +958,8 @@ pub fn run_seed_shuffles(prop: &str, checks: u32, thorough: bool) -> Vec<FamilyR
                 Some(x) => x,
                 None => return Stats::default(),
             };
-            let root = RootInfo { how: if idx % 2 == 1 { RootHow::Parsed } else { RootHow::Constructed }, explorer: "E9", family: family.clone(), idx, board, gold, move_number: 2, config: serde_json::json!({"gray_pieces_per_side": k, "other_side_plays_four_step_turns": four, "direction_preference_rotation": rot, "candidate_offset": off}) };
+            let e9_mn = [2usize, 990, 65_520, (1usize << 32) - 30][(rot + off) % 4];
+            let root = RootInfo { how: if idx % 2 == 1 { RootHow::Parsed } else { RootHow::Constructed }, explorer: "E9", family: family.clone(), idx, board, gold, move_number: e9_mn, config: serde_json::json!({"gray_pieces_per_side": k, "other_side_plays_four_step_turns": four, "direction_preference_rotation": rot, "candidate_offset": off}) };
             let mut ctx = Ctx::new(checks, prop, &root);
             let mut mover = shuffle_candidates(&board, gold, rot);
             let mut other = shuffle_candidates(&board, !gold, rot);
